@@ -3,8 +3,12 @@
 package main
 
 import (
+	"fmt"
 	"os"
+	"sort"
 	"strings"
+
+	"github.com/wader/fq/internal/ansi"
 
 	"github.com/wader/fq/internal/verifharness/hlib"
 )
@@ -84,6 +88,7 @@ var witnessCases = [][]string{
 	{"tovalue/1", "dv:png=O()", "O(addrbase=n:0;bits_format=s:736e6970706574;sizebase=n:0)"},
 	{"tojson/1", "dv:png_sig=s:efbfbd504e470d0a1a0a", "O(bits_format=s:736e6970706574;sizebase=n:1)"},
 	{"_tovalue/1", "bin:fffe00/24/8", "O(bits_format=s:736e6970706574;sizebase=n:9223372036854775807)"},
+	{"hexdump/1", "bin:414263646566/48/8", "O(byte_colors=A(O(ranges=A(A(n:0;n:255));value=s:6267627269676874726564));color=true;line_bytes=n:2)"},
 	{"_stdio_read/2", "null", "s:737464696e", "n:0"},
 	{"_stdio_read/2", "null", "s:737464696e", "n:16"},
 	{"_stdio_read/2", "null", "s:737464696e", "n:-1"},
@@ -155,6 +160,82 @@ var displayFns = map[string]bool{
 }
 var truncInputs = []string{"dv:cbor=O()", "dv:cbor_arr51=O()"}
 
+// ---- the colour / line geometry dimension of the dump options -----------------------------------
+//
+// color on, line_bytes around the powers of two, byte_colors with every colour name fq knows
+// (taken from ansi.StringToCode at run time), compound `a+b` names of growing length, unknown
+// names and partial / empty / reversed / out-of-byte ranges — crossed with binaries whose size
+// sits around the line boundaries. The formatted length of a byte in the dump's hex and ascii
+// columns is a function of exactly these members.
+
+func strTok(s string) string { return "s:" + hexOrDash([]byte(s)) }
+
+func byteColorsTok(entries ...[2]string) string {
+	// entry = {ranges token, value}
+	es := make([]string, len(entries))
+	for i, e := range entries {
+		es[i] = "O(ranges=" + e[0] + ";value=" + strTok(e[1]) + ")"
+	}
+	return "A(" + strings.Join(es, ";") + ")"
+}
+
+const allBytes = "A(A(n:0;n:255))"
+
+func byteColorShapes() []string {
+	names := make([]string, 0, len(ansi.StringToCode))
+	for n := range ansi.StringToCode {
+		names = append(names, n)
+	}
+	sort.Strings(names)
+	var shapes []string
+	for _, n := range names {
+		shapes = append(shapes, byteColorsTok([2]string{allBytes, n}))
+	}
+	for _, v := range []string{"red+underline", "bgbrightred+bold", "bold+italic+underline+inverse", "bgbrightwhite+brightwhite",
+		strings.Repeat("bgbrightred+", 8) + "bold", strings.Repeat("bgbrightred+", 39) + "bgbrightred", "unknown", "", "red+unknown+bold"} {
+		shapes = append(shapes, byteColorsTok([2]string{allBytes, v}))
+	}
+	shapes = append(shapes,
+		byteColorsTok([2]string{allBytes, "red"}, [2]string{"A(A(n:65;n:66))", "bgbrightred"}),
+		byteColorsTok([2]string{allBytes, "red"}, [2]string{"A(A(n:65;n:65))", "bgbrightred"}, [2]string{"A(A(n:99;n:99))", "bgbrightblue"}),
+		byteColorsTok([2]string{"A(A(n:0;n:127))", "bgbrightblue"}),
+		byteColorsTok([2]string{"A(A(n:97;n:97);A(n:99;n:101))", "bgbrightwhite+underline"}),
+		byteColorsTok([2]string{"A()", "red"}),
+		byteColorsTok([2]string{"A(A(n:255;n:0))", "red"}),
+		byteColorsTok([2]string{"A(A(n:-1;n:300))", "bggreen"}),
+		"A()", "n:1", strTok("0-255=bgbrightred"),
+	)
+	return shapes
+}
+
+var dumpLineBytes = []int{1, 2, 3, 7, 8, 15, 16, 17, 31, 32, 33, 63, 64}
+
+// extra members, one of which is added to a colour object in the thorough tier
+var dumpExtraMembers = []string{"display_bytes=n:0", "display_bytes=n:1", "display_bytes=n:17", "addrbase=n:2", "addrbase=n:36",
+	"sizebase=n:2", "sizebase=n:16", "unicode=true", "raw_string=true", "depth=n:1", "array_truncate=n:1", "string_truncate=n:1",
+	"verbose=true", "bits_format=s:736e6970706574", "color=false", "width=n:40"}
+
+func objTok(members ...string) string {
+	sort.Strings(members)
+	return "O(" + strings.Join(members, ";") + ")"
+}
+
+// dumpBinaryTok: n bytes "ABcdefgh…" as a byte binary (the partial ranges above pick out A, B, a, c, d, e)
+func dumpBinaryTok(n int) string {
+	b := make([]byte, n)
+	for i := range b {
+		switch {
+		case i < 2:
+			b[i] = byte('A' + i)
+		default:
+			b[i] = byte('a' + (i % 26))
+		}
+	}
+	return fmt.Sprintf("bin:%s/%d/8", hexOrDash(b), n*8)
+}
+
+var dumpFnsQuick = map[string]bool{"hexdump/1": true, "d/1": true}
+
 // functions that take display / format options as their only argument
 var optionFns = map[string]bool{
 	"tovalue/1": true, "toactual/1": true, "tosym/1": true, "display/1": true, "display_implicit/1": true,
@@ -202,6 +283,36 @@ func generate(fns []fnInfo, p poolT, cfg hlib.Config, rnd *hlib.Rand) []pcase {
 		}
 		if only != "" && f.key() != only {
 			continue
+		}
+		if displayFns[f.key()] && (cfg.Thorough() || dumpFnsQuick[f.key()]) {
+			// colour x line geometry: quick = hexdump and d, every (line_bytes, byte_colors) pair on a
+			// binary of two lines and one byte; thorough = every tree / dump function, five sizes
+			// around the line boundaries, plus one more option member
+			shapes := byteColorShapes()
+			for _, lb := range dumpLineBytes {
+				sizes := []int{2*lb + 1}
+				if cfg.Thorough() {
+					sizes = []int{lb, lb + 1, 2 * lb, 2*lb + 1, 3*lb + 1}
+				}
+				for si, sh := range shapes {
+					for zi, n := range sizes {
+						members := []string{"byte_colors=" + sh, "color=true", fmt.Sprintf("line_bytes=n:%d", lb)}
+						if cfg.Thorough() && (si+zi)%2 == 1 {
+							members = append(members, dumpExtraMembers[rnd.Intn(len(dumpExtraMembers))])
+						}
+						cases = append(cases, pcase{fn: fi, toks: []string{dumpBinaryTok(n), objTok(members...)}})
+					}
+				}
+			}
+			// a decode value as well (tree + hex columns)
+			if _, ok := p.byTok("dv:png=O()"); ok {
+				for _, lb := range []int{1, 2, 16, 17} {
+					for _, sh := range shapes {
+						cases = append(cases, pcase{fn: fi, toks: []string{"dv:png=O()",
+							objTok("byte_colors="+sh, "color=true", fmt.Sprintf("line_bytes=n:%d", lb))}})
+					}
+				}
+			}
 		}
 		if displayFns[f.key()] {
 			// every truncation limit on the decode values with multi-byte strings: both tiers
